@@ -559,7 +559,7 @@ def _alarm(sig, frm):
 def _worker(args):
     import signal
     qn, vi, timeout_ms = args
-    budget = int(os.environ.get("PYVC_FUNCTION_BUDGET_S", "100" if timeout_ms <= 10000 else "900"))
+    budget = int(os.environ.get("PYVC_FUNCTION_BUDGET_S", "60" if timeout_ms <= 10000 else "900"))
     signal.signal(signal.SIGALRM, _alarm)
     signal.alarm(budget)
     try:
@@ -594,7 +594,7 @@ def _child(conn, task):
 def _run_tasks(ctx, tasks, timeout_ms, width=16):
     """One process per (function, variant), at most `width` at a time; a process that overruns its budget (z3 can
     ignore its timeout inside recursive-function propagation) is killed and the function reported as undecided."""
-    budget = int(os.environ.get("PYVC_FUNCTION_BUDGET_S", "100" if timeout_ms <= 10000 else "900"))
+    budget = int(os.environ.get("PYVC_FUNCTION_BUDGET_S", "60" if timeout_ms <= 10000 else "900"))
     pending = list(enumerate(tasks))
     running, results = [], {}
     while pending or running:
